@@ -530,6 +530,36 @@ def medianTime (ts : List Int) : Int :=
   let w := ts.take 11
   (w.foldr insertSorted []).getD (w.length / 2) 0
 
+/-! ### the part of `checkBlockSanity` that uses the accounting primitives -/
+
+/-- the duplicate-transaction loop (map of seen hashes) -/
+def hasDup {β : Type} [DecidableEq β] : List β → Bool
+  | [] => false
+  | a :: r => r.contains a || hasDup r
+
+/-- the legacy sigop loop: running total of `CountSigOps(tx) * WitnessScaleFactor` against
+    `MaxBlockSigOpsCost` (the int-overflow test needs > 2^61 sigops) -/
+def sigOpsLoop (maxCost : Nat) : List Nat → Nat → Bool
+  | [], _ => true
+  | c :: r, total =>
+    let t := total + c * Spec.WITNESS_SCALE_FACTOR
+    if t > maxCost then false else sigOpsLoop maxCost r t
+
+inductive SanityResult | ok | badMerkle | dupTx | tooManySigOps
+  deriving DecidableEq, Repr
+
+/-- `checkBlockSanity` after the header / coinbase / per-transaction checks: header root against
+    `CalcMerkleRoot(txs, false)` (`none` = panic), duplicates, legacy sigop cost -/
+def checkBlockSanityTail {β : Type} [DecidableEq β] (headerRoot : β) (computed : Option β) (txids : List β)
+    (sigops : List Nat) : Option SanityResult :=
+  match computed with
+  | none => none
+  | some c =>
+    if headerRoot ≠ c then some .badMerkle
+    else if hasDup txids then some .dupTx
+    else if !sigOpsLoop 80000 sigops 0 then some .tooManySigOps
+    else some .ok
+
 /-- `ShouldHaveSerializedBlockHeight` (header version as int32) -/
 def shouldHaveSerializedBlockHeight (version : Int) : Bool := version ≥ 2
 
